@@ -99,8 +99,10 @@ pub(crate) mod verif_step {
         let shift = if bottom && full < b { b - full } else { 0 };
         let kf1 = pend && n >= 2 && lens[0] == 0;
         let kf2 = shift > 0 && nt > 0;
+        // region 0: everything except the recorded finding kf1; region 1: the finding's witness region; region 2: bottom
+        // alignment shrinking in a draw that also prints text lines (repaired defect, kept as an explicitly covered region)
         match region {
-            0 => kani::assume(!kf1 && !kf2),
+            0 => kani::assume(!kf1),
             1 => kani::assume(kf1 && !kf2),
             _ => kani::assume(kf2 && !kf1),
         }
@@ -119,18 +121,21 @@ pub(crate) mod verif_step {
                 assert!(scr.tag(i) != T_OLD);
             }
         });
-        // (3) layout from the origin: [shift blank rows] then every painted line with its wrapped height, in order
+        // (3) layout from the origin: the text lines, then the `shift` blank rows of a shrinking bottom-aligned frame, then
+        //     the painted bar lines, each line on its wrapped rows, in order
         let o = if pend { R0 + 1 } else { fs };
         let mut row = o;
-        if region != 2 {
-            let mut j = 0;
-            while j < shift {
-                assert!(scr.is_blank(row));
-                row += 1;
-                j += 1;
-            }
+        {
             let mut k = 0;
             while k < np {
+                if k == nt {
+                    let mut j = 0;
+                    while j < shift {
+                        assert!(scr.is_blank(row));
+                        row += 1;
+                        j += 1;
+                    }
+                }
                 let letter = if k < nt { b'a' + k as u8 } else { b'A' + k as u8 };
                 let mut j = 0;
                 while j < hs[k] {
@@ -144,6 +149,16 @@ pub(crate) mod verif_step {
                 }
                 k += 1;
             }
+            // no bar line was painted: the blank rows follow the text lines
+            let trailing = np <= nt && shift > 0;
+            if trailing {
+                let mut j = 0;
+                while j < shift {
+                    assert!(scr.is_blank(row));
+                    row += 1;
+                    j += 1;
+                }
+            }
             // nothing below the frame
             rows!(i, {
                 if i >= row {
@@ -153,14 +168,14 @@ pub(crate) mod verif_step {
             // (4) row accounting: exactly the painted bar rows (+ bottom padding) will be erased by the next draw
             assert!(last == bars + shift);
             // (5) cursor: parked at the right edge of the last painted row (next ordinary output starts on a fresh
-            //     line) when the whole frame was painted; at column 0 of the frame origin when nothing was painted
-            if np > 0 {
+            //     line) when the whole frame was painted; at column 0 of the last blank row when the frame ends with padding
+            if trailing {
+                assert!(scr.row.get() + 1 == row && scr.col.get() == 0);
+            } else if np > 0 {
                 assert!(scr.row.get() + 1 == row);
                 if np == n {
                     assert!(scr.col.get() == w);
                 }
-            } else if b > 0 {
-                assert!(scr.row.get() == fs + shift && scr.col.get() == 0);
             }
         }
         // (6) Inv1 again: the `last` rows ending at the cursor row are frame rows (no log/text row among them), they
